@@ -21,6 +21,13 @@ def aggregate_sites(F, paths):
                 if s['k'] == 'assign' and s['rv']['k'] == 'aggregate' and s['rv']['kind']['k'] == 'adt' \
                         and s['rv']['kind']['path'] in paths:
                     out.append(((k, bi, si), s['rv']['kind']['path'], s['rv']['kind']['variant']))
+            # constructor functions: called directly, or handed to a combinator (`.map(U7)`) of this call
+            t = blk['term']
+            if t['k'] == 'call':
+                cands = [t['f'].get('fn')] + [a.get('fn') for a in t['args'] if a.get('k') == 'const']
+                for c in cands:
+                    if c and c.get('kind', '').startswith('Ctor') and c.get('ctor_adt') in paths:
+                        out.append(((k, bi, 't'), c['ctor_adt'], int(c.get('ctor_variant', 0))))
     return out
 
 
